@@ -15,7 +15,7 @@ type varKind struct {
 }
 
 var rtVarKinds = []varKind{
-	{re: "", good: []string{"x", "12", "a.b", "hello-1", "é"}, bad: []string{""}},
+	{re: "", good: []string{"x", "12", "a.b", "hello-1", "é", "a%2Fb", "%41", "100%", "v1.2.zip"}, bad: []string{""}},
 	{re: `\d+`, good: []string{"1", "42", "007"}, bad: []string{"a", "1a", ""}},
 	{re: `[a-z]+`, good: []string{"a", "abc"}, bad: []string{"A", "1", "a1"}},
 	{re: `[0-9]{1,3}`, good: []string{"7", "12", "123"}, bad: []string{"1234", "x"}},
@@ -304,9 +304,32 @@ func newRtG(r *Rng) *rtG {
 }
 
 // ---------------- C01 / C02: selection and parameters ----------------
+// a crowded first-node bucket: 5..9 overlapping routes of one method that all start with the same literal segment
+func (g *rtG) crowded() *rtTable {
+	r := g.r
+	t := &rtTable{}
+	first := g.pool[0]
+	m := []string{r.Pick([]string{"GET", "GET", "POST"})}
+	for k := r.Range(5, 9); k > 0; k-- {
+		pat := g.pattern()
+		pat.req[0] = []rtPart{{lit: first}}
+		if len(pat.req) == 1 {
+			pat.req = append(pat.req, g.seg(true))
+		}
+		t.defs = append(t.defs, L(SL(m), S(pat.text()), B(false)))
+		t.pats = append(t.pats, pat)
+		t.paths = append(t.paths, pat.text())
+		t.meths = append(t.meths, m)
+	}
+	return t
+}
+
 func c01Gen(r *Rng, tier string, i int) Sx {
 	g := newRtG(r)
 	t := g.table(r.Range(1, 10))
+	if i%9 == 8 {
+		t = g.crowded()
+	}
 	var opts []Sx
 	if r.Chance(1, 5) {
 		opts = append(opts, L(A("strict")))
